@@ -38,8 +38,9 @@
 (*         <<"inst",k>> (the live instance in slot k)  <<"ptr",k>>         *)
 (*         <<"anon",N,v>> (a fresh, otherwise unreachable instance of N    *)
 (*         made under version v)  <<"aptr",N,v>>  <<"nilslice">> ([nil]:   *)
-(*         a slice the language cannot type)  <<"missing">> (deviation     *)
-(*         only: a listed key without a value).                            *)
+(*         a slice the language cannot type);  deviations only:            *)
+(*         <<"missing">> (a listed key without a value), <<"mslice",t,u>>  *)
+(*         (a slice with elements of two types).                           *)
 (* Keys:   <<"sym",name>>  <<"str",s>>  <<"int",n>>                        *)
 (***************************************************************************)
 EXTENDS Integers, Sequences, FiniteSets
@@ -209,12 +210,37 @@ Derefset(st, o) ==
                                    !.inst[t].ver = CurVer(st, o.name)]
             IN {Out(okS, "ok", "")} \cup (IF ~same \/ "err" \in b THEN {Err(st)} ELSE {})
 
+(* element assignment into the slice a field holds: {x.f[i] = v},           *)
+(* (aset (:f x) i v).  The slice stays a value of the declared type only   *)
+(* if the element has the declared element type.  Slices written by the    *)
+(* harness have two elements; <<"mslice",t0,t1>> is a slice with elements  *)
+(* of two types (deviation slice-element-unchecked only: the code assigns  *)
+(* the element without any check).                                         *)
+ElemTypes(v)    == IF v[1] = "slice" THEN <<v[2], v[2]>> ELSE <<v[2], v[3]>>
+MkSlice(t0, t1) == IF t0 = t1 THEN <<"slice", t0>> ELSE <<"mslice", t0, t1>>
+Elem(st, o) ==
+    IF ~Live(st, o.slot) THEN {Err(st)}
+    ELSE LET i   == st.inst[o.slot]
+             key == <<"sym", o.field>>
+         IN IF key \notin DOMAIN i.f THEN {Err(st)}
+            ELSE IF i.f[key][1] \notin {"slice", "mslice"} THEN {Err(st)}   \* nothing to index
+            ELSE LET cur == ElemTypes(i.f[key])
+                     new == [cur EXCEPT ![o.idx + 1] = o.v[2]]
+                     set == [st EXCEPT !.inst[o.slot].f[key] = MkSlice(new[1], new[2])]
+                     def == DefOf(st, i)
+                 IN IF o.field \in DOMAIN def /\ def[o.field] = <<"slice", o.v[2]>>
+                    THEN {Out(set, "ok", "")}
+                    ELSE IF "slice-element-unchecked" \in Devs
+                    THEN {Out(set, "ok", "slice-element-unchecked")}
+                    ELSE {Err(st)}
+
 Outcomes(st, o) ==
     CASE o.op = "declare"   -> Declare(st, o)
       [] o.op = "construct" -> Construct(st, o)
       [] o.op = "decode"    -> Decode(st, o)
       [] o.op = "write"     -> Write(st, o)
       [] o.op = "derefset"  -> Derefset(st, o)
+      [] o.op = "elem"      -> Elem(st, o)
 
 (* ---- what the property says, as predicates on the machine ---- *)
 WellTypedSt(st) ==
@@ -251,6 +277,9 @@ Ops(s) ==
           ELSE {})
     \cup {[op |-> "write", route |-> r[1], hop |-> r[2], slot |-> k, key |-> <<r[3], fn>>, v |-> v] :
              r \in Routes, k \in 1..Len(s.inst), fn \in FieldNames, v \in Vals(s)}
+    \cup {[op |-> "elem", route |-> "aset", slot |-> k, field |-> fn, idx |-> ix, v |-> v] :
+             k \in 1..Len(s.inst), fn \in FieldNames, ix \in {0, 1},
+             v \in {v \in BaseVals : v[1] = "base"}}
     \cup {[op |-> "derefset", route |-> r[1], hop |-> r[2], slot |-> k, name |-> n, args |-> a] :
              r \in {<<"addr", "">>, <<"pfield", "fp">>}, k \in 1..Len(s.inst), n \in Names, a \in Arg1(s)}
 
